@@ -132,14 +132,18 @@ def load_known():
 class _Included:
     """what a lower-layer module's register() sees when it is included by another check"""
 
-    def __init__(self, chk, prefix):
+    def __init__(self, chk, prefix, only=None):
         self._chk, self._prefix = chk, prefix
+        self._only = only
         self.tier, self.args, self.pid = chk.tier, chk.args, chk.pid
         self.replayer = None
         self.explanation = ""
         self.bounds, self.trusted, self.assumptions = [], [], []
 
     def add(self, name, fn, *args):
+        import re
+        if self._only and not re.search(self._only, name):
+            return
         self._chk.add(self._prefix + name, fn, *args)
 
 
@@ -209,7 +213,7 @@ class Check:
             return
         self.jobs.append((name, fn, args))
 
-    def include(self, pid):
+    def include(self, pid, only=None):
         """Register the obligations of a lower-layer check inside this one (names prefixed `dep:<pid>:`).  A check replaces lower-layer functions
         by their specifications; the obligations that establish those specifications belong to its claim, so a change below that breaks this
         property is reported here as well, not only by the lower check.  The module's `include_in(proxy)` builds its programs in this (parent)
@@ -219,7 +223,7 @@ class Check:
         if here not in sys.path:
             sys.path.insert(0, here)
         mod = importlib.import_module(pid.lower())
-        proxy = _Included(self, "dep:%s:" % pid)
+        proxy = _Included(self, "dep:%s:" % pid, only)
         mod.include_in(proxy)
         if proxy.replayer is not None:
             self.dep_replayers["dep:%s:" % pid] = proxy.replayer
